@@ -361,6 +361,9 @@ func ErrorTested(call ssa.Instruction) bool {
 			if bo, ok := r.(*ssa.BinOp); ok && (bo.Op == token.NEQ || bo.Op == token.EQL) {
 				return true
 			}
+			if _, ok := r.(*ssa.Return); ok {
+				return true // handed to the caller
+			}
 		}
 		return false
 	}
